@@ -391,8 +391,11 @@ func validDocs(c *explore.Ctx) {
 	sp := c.Bool()
 	var b strings.Builder
 	depth, width := 2, 2
-	if c.Thorough() {
+	forms := gapForms
+	if c.Thorough() && c.Choose(2) == 1 {
+		// thorough: the wider grammar with a single space in the gaps, next to the quick grammar with every white space form
 		depth, width = 2, 3
+		forms = gapForms[:1]
 	}
 	genValue(c, depth, width, sp, &b)
 	doc := []byte(b.String())
@@ -400,7 +403,7 @@ func validDocs(c *explore.Ctx) {
 		// every form of insignificant white space in every gap, also before and after the document
 		tmpl := "\x01" + b.String() + "\x01"
 		var n int64
-		for _, ws := range gapForms {
+		for _, ws := range forms {
 			doc = []byte(strings.ReplaceAll(tmpl, "\x01", ws))
 			checkValid(c, doc, "fresh")
 			n++
